@@ -132,7 +132,8 @@ def history_task(task, wdir, res):
         for _ in range(n):
             k += 1
             c = rng.choice(ctxs) if not big else ctxs[0]
-            must_ok(node.cmd(gen.store_cmd("ev", c, {"k": k})), "store")
+            # the payload carries fields named like system columns (DEFINE allows it): they must never stand in for the real ones
+            must_ok(node.cmd(gen.store_cmd("ev", c, {"k": k, "event_id": k % 3, "timestamp": 7})), "store")
             events[k] = {"lt": life["n"], "rel": life["rel"], "ctx": c}
         clock["ms"] = node.meta("clock peek")["now"] or clock["ms"]
         clock["hw"] = max(clock["hw"], clock["ms"])
@@ -198,7 +199,7 @@ def history_task(task, wdir, res):
                               f"{tag}: missing k={missing[:6]} repeated k={dup[:6]} of {len(events)} events", w)
 
     try:
-        must_ok(node.cmd('DEFINE ev FIELDS { k: "int" }'), "define")
+        must_ok(node.cmd('DEFINE ev FIELDS { k: "int", event_id: "int", timestamp: "int" }'), "define")
         set_clock(clock["ms"], 3)
         for step in range(task["steps"]):
             r = rng.random()
